@@ -114,8 +114,22 @@ func c02Reply(fn byte) (*vDriver, *uhppote, uint32, []byte) {
 	r := nondetBytes("reply", 64)
 	verifAssume(r[0] == 0x17 && r[1] == fn && specGet32(r, 4) == id)
 	d := &vDriver{seq: [][]byte{r}}
-	return d, vClient(d), id, r
+	u := vClient(d)
+	if c02Earlier != nil {
+		// an earlier call of the same operation on the same client, with its own arbitrary (accepted) reply:
+		// the result of the call under test must not depend on it
+		r0 := nondetBytes("earlier.reply", 64)
+		id0 := nondetSerial("earlier.id")
+		verifAssume(r0[0] == 0x17 && r0[1] == fn && specGet32(r0, 4) == id0)
+		d.seq = [][]byte{r0}
+		c02Earlier(u, id0)
+		d.seq = [][]byte{r}
+		d.calls = 0
+	}
+	return d, u, id, r
 }
+
+var c02Earlier func(u *uhppote, id uint32)
 
 // specStatus: classification of a 64-byte status / event payload (GetStatus reply layout, appendix A).
 type specStatus struct {
